@@ -264,9 +264,52 @@ def has_set_dup(c):
     return False
 
 
+RESPELL = [["2.5", "2.50", "2.500", "25.0e-1", "0.25E1", "02.5"],
+           ["0.10", "0.1", ".1", "1.0e-1", "0.100"],
+           ["1.", "1.0", "1.00", "1e0", "01.0", "10.E-1"],
+           ["0.0", "-0.0", "0.00", "0.", "0e0"],
+           ["1.5e3", "1500.0", "1.5E+3", "15.0e2", "1500."]]
+
+
+@st.composite
+def respelled(draw, d):
+    """One more statement: a sequence (sometimes nested, sometimes with units) of reals
+    that are equal in value and differ in spelling - a real_cls that keeps the written
+    text has to get each of them."""
+    T = gt.T
+    fam = draw(st.sampled_from(RESPELL))
+    k = draw(st.integers(2, len(fam)))
+    texts = draw(st.permutations(fam))[:k]
+    if draw(st.booleans()):
+        texts = list(texts) + [texts[0]]
+    items, canons = [], []
+    for t in texts:
+        c = ("float", float(t).hex())
+        toks = [T(t, "word", c)]
+        if draw(st.integers(0, 3)) == 0:
+            toks.append(T("<um>", "units", "um"))
+            c = ("q", c, "um")
+        items.append(toks)
+        canons.append(c)
+    toks = gt.join_items(items, "(", ")")
+    canon = ("seq", tuple(canons))
+    if d not in ("ODL", "PDS3") or True:
+        if draw(st.integers(0, 2)) == 0:       # one level deeper
+            toks = gt.join_items([toks, [T("7", "word", ("int", 7))]], "(", ")")
+            canon = ("seq", (canon, ("int", 7)))
+    return ([T("RESPELLED"), T("=", "eq")] + toks, ("RESPELLED", canon))
+
+
 @st.composite
 def cases(draw, d):
     doc = draw(gt.documents(d, min_statements=1))
+    if draw(st.integers(0, 3)) == 0:
+        # before the END statement (if any)
+        toks, item = draw(respelled(d))
+        k = next((i for i, t in enumerate(doc["tokens"]) if t[1] == "end"),
+                 len(doc["tokens"]))
+        doc = dict(doc, tokens=doc["tokens"][:k] + toks + doc["tokens"][k:],
+                   expected=("mod", doc["expected"][1] + (item,)))
     text = gt.seeded_layout(doc, d, draw(st.integers(0, 2 ** 32)), "light")
     cfg = dict(real=draw(st.sampled_from(["float", "Decimal", "RecordingReal",
                                            "RecordingReal"])),
